@@ -7,11 +7,18 @@ from . import roundtrip
 def run(chk):
     kf_bin = chk.kf.active('bin-zinc-3.0')
     jobs = [dict(j, **{'assert': 'zincref'}) for j in roundtrip.matrix('zinc', chk.tier, kf_bin)]
+    # three symbolic code points through writer + reference reader cost ~10x the round trip: keep N=3 for cells of 3.0 grids only
+    # (finer first-character classes, larger budget); the other positions/versions stop at N=2
+    jobs = [j for j in jobs if j['N'] < 3 or j.get('alphabet') or (j.get('position') == 'cell' and j['version'] == '3.0')]
+    for j in jobs:
+        if j['N'] >= 3 and not j.get('alphabet'):
+            j['fine_split'] = True
+            j['timeout'] = 3000
     if chk.only:
         jobs = [j for j in jobs if chk.only in textprops.job_name(j)]
-    nmax = max(j['N'] for j in jobs)
+    nmax = max([j['N'] for j in jobs if not j.get('alphabet')] or [0])
     from ..spec import zinc_ref
-    chk.bounds = dict(symbolic_payload_code_points='<=%d per document' % nmax, kinds_symbolic=roundtrip.TEXT_KINDS + roundtrip.ALPHA_KINDS,
+    chk.bounds = dict(symbolic_payload_code_points='<=%d per document (plus 6 over the metacharacter alphabet for str/uri)' % nmax, kinds_symbolic=roundtrip.TEXT_KINDS + roundtrip.ALPHA_KINDS,
                       positions_3_0=roundtrip.POS30, positions_2_0=roundtrip.POS20, versions=['2.0', '3.0'],
                       catalogue='concrete boundary values of the non-text kinds at every position, all mapped zones, 400+ microsecond values',
                       documents='single grid and two-grid documents')
